@@ -51,9 +51,10 @@ Baseline(ty) ==
 (* the values each field may deviate to, per type *)
 Domain(ty, f) ==
   \* "overByWhitespace": the request exceeds the maximum only through JSON whitespace around the (maximal) operation
-  CASE f = "opSize"    -> {"small", "max", "over", "overByWhitespace"}
-    [] f = "deltaSize" -> IF HasDelta(ty) THEN {"small", "max", "over"} ELSE {"small"}
-    [] f = "hashLen"   -> {"small", "max", "over"}
+  \* "huge": the limit itself is 2^63 or 2^64 - 1 (the parameters are unsigned): far above every request
+  CASE f = "opSize"    -> {"small", "max", "over", "overByWhitespace", "huge"}
+    [] f = "deltaSize" -> IF HasDelta(ty) THEN {"small", "max", "over", "huge"} ELSE {"small"}
+    [] f = "hashLen"   -> {"small", "max", "over", "huge"}
     \* "emptyList": the protocol version enables NO algorithm / curve / patch action at all (an empty allow-list allows nothing)
     \* "respelled": the right multihash in a non-canonical base64url spelling (unused trailing bits set, line break inside)
     [] f = "hashAlg"   -> {<<"allowed", "">>, <<"emptyList", "">>} \cup {<<"notAllowed", h>> : h \in HashFields(ty)} \cup {<<"malformed", h>> : h \in HashFields(ty)}
@@ -78,9 +79,9 @@ Fields == {"opSize", "deltaSize", "hashLen", "hashAlg", "alg", "hdrExtra", "crv"
 
 (* The acceptance predicate: every rule of C10 / C12, every limit inclusive. *)
 Accept(r) ==
-  /\ r.opSize \in {"small", "max"}
-  /\ r.deltaSize \in {"small", "max"}
-  /\ r.hashLen \in {"small", "max"}
+  /\ r.opSize \in {"small", "max", "huge"}
+  /\ r.deltaSize \in {"small", "max", "huge"}
+  /\ r.hashLen \in {"small", "max", "huge"}
   /\ r.hashAlg[1] = "allowed"
   /\ r.alg = "allowed" /\ ~r.hdrExtra
   /\ r.crv = "allowed"
@@ -129,9 +130,9 @@ Next == \E f \in Fields : \E v \in Domain(req.ty, f) : Deviate(f, v)
 ---------------------------------------------------------------------------
 (* Properties of the table (tautologies of Accept, kept as executable documentation of C10's wording). *)
 BoundaryExact ==
-  /\ (devs = {"opSize"}) => (Accept(req) <=> req.opSize = "max")
-  /\ (devs = {"deltaSize"}) => (Accept(req) <=> req.deltaSize = "max")
-  /\ (devs = {"hashLen"}) => (Accept(req) <=> req.hashLen = "max")
+  /\ (devs = {"opSize"}) => (Accept(req) <=> req.opSize \in {"max", "huge"})
+  /\ (devs = {"deltaSize"}) => (Accept(req) <=> req.deltaSize \in {"max", "huge"})
+  /\ (devs = {"hashLen"}) => (Accept(req) <=> req.hashLen \in {"max", "huge"})
   /\ (devs = {"nonce"}) => (Accept(req) <=> req.nonce = "N")
 OneViolationSuffices == (\E f \in devs : ~Accept([Baseline(req.ty) EXCEPT ![f] = req[f]])) => ~Accept(req)
 Recommit == req.next # "fresh" => ~Accept(req)
